@@ -12,7 +12,7 @@ neither, so it is a step that leaves this state alone — sends after a close st
 `send_msg` of both protocols contains no `await`: a timer-driven heartbeat can run before or after a send, never
 inside one, so a history is a list of atomic operations.
 -/
-namespace NasdaqModel.Seq
+namespace NasdaqModel.SeqNum
 open NasdaqModel Soup
 
 /-! ## SoupBinTCP -/
@@ -146,6 +146,16 @@ inductive FixOp where
   | heartbeat (m : FixMsg)           -- `send_heartbeat()`: `send_msg(Message.Def['0']())`, m = what that message looks like
   deriving Repr, DecidableEq
 
+/-- the message an operation hands to `send_msg` -/
+def FixOp.msg : FixOp → FixMsg
+  | .login _ m => m
+  | .send m => m
+  | .heartbeat m => m
+
+def FixOp.isLogin : FixOp → Bool
+  | .login .. => true
+  | _ => false
+
 def fixStep (s : FixSt) : FixOp → FixSt × FixOut
   | .login q m => fixSend { s with next := some q } m
   | .send m => fixSend s m
@@ -158,4 +168,34 @@ def fixTrace : FixSt → List FixOp → List (FixOut × Option Int)
   | _, [] => []
   | s, op :: rest => let r := fixStep s op; (r.2, r.1.next) :: fixTrace r.1 rest
 
-end NasdaqModel.Seq
+/-! ### the repaired `send_msg` (fixes/C10-encode-failure-gap.md)
+
+The proposed repair gives the number back when serialisation fails (`self.sequence = count(seq_num)` in an
+`except` around `_prepare_complete_msg`).  The harness probes which of the two behaviours the code under test has
+(it replays `witnessGap`) and ties *that* variant to the code; the theorems say which statement holds for which. -/
+
+def fixSendR (s : FixSt) (m : FixMsg) : FixSt × FixOut :=
+  if !m.bodyValid then (s, .rejected)
+  else match s.next with
+    | none => (s, .notLoggedIn)
+    | some n =>
+      if m.encodable then ({ next := some (n + 1), frames := s.frames ++ [n] }, .written n)
+      else ({ s with next := some n }, .encodeError)      -- `self.sequence = count(n)`
+
+def fixStepR (s : FixSt) : FixOp → FixSt × FixOut
+  | .login q m => fixSendR { s with next := some q } m
+  | .send m => fixSendR s m
+  | .heartbeat m => fixSendR s m
+
+def fixRunR (s : FixSt) (ops : List FixOp) : FixSt := ops.foldl (fun st op => (fixStepR st op).1) s
+
+def fixTraceR : FixSt → List FixOp → List (FixOut × Option Int)
+  | _, [] => []
+  | s, op :: rest => let r := fixStepR s op; (r.2, r.1.next) :: fixTraceR r.1 rest
+
+/-- the history `Witness/C10.lean` is about: logon with MsgSeqNum 5, a send that passes validation and cannot be
+    serialised, a good send.  The driver prints this very term (`witness C10`) and the harness replays it on the code. -/
+def witnessGap : List FixOp :=
+  [.login 5 ⟨true, true⟩, .send ⟨true, false⟩, .send ⟨true, true⟩]
+
+end NasdaqModel.SeqNum
